@@ -87,13 +87,13 @@ Proof.
   destruct rest as [|x1 rest].
   { cbn in *. unfold wf_byte in *. unfold be_value, len_for_value. cbn [be_acc].
     assert (x0 <> 0 /\ x0 < 128) as [A B] by lia.
-    replace (0 * 256 + x0 =? 0) with false by lia. replace (0 * 256 + x0 <? 128) with true by lia.
+    replace (256 * 0 + x0 =? 0) with false by lia. replace (256 * 0 + x0 <? 128) with true by lia.
     repeat split; unf; try lia. change (N.to_nat 1) with 1%nat.
     rewrite !be_bytes_S. cbn [be_bytes be_bytes_acc app]. f_equal; lia. }
   destruct rest as [|x2 rest].
   { cbn in *. unfold wf_byte in *. unfold be_value, len_for_value. cbn [be_acc].
     assert (x0 < 128 /\ x1 < 256 /\ (x0 <> 0 \/ 128 <= x1)) as (A & B & C) by lia.
-    set (v := (0 * 256 + x0) * 256 + x1).
+    set (v := 256 * (256 * 0 + x0) + x1).
     replace (v =? 0) with false by lia. replace (v <? 128) with false by lia.
     replace (v <? 32768) with true by lia.
     repeat split; unf; try lia. change (N.to_nat 2) with 2%nat.
@@ -101,7 +101,7 @@ Proof.
   destruct rest as [|x3 rest].
   { cbn in *. unfold wf_byte in *. unfold be_value, len_for_value. cbn [be_acc].
     assert (x0 < 128 /\ x1 < 256 /\ x2 < 256 /\ (x0 <> 0 \/ 128 <= x1)) as (A & B & C & D) by lia.
-    set (v := ((0 * 256 + x0) * 256 + x1) * 256 + x2).
+    set (v := 256 * (256 * (256 * 0 + x0) + x1) + x2).
     replace (v =? 0) with false by lia. replace (v <? 128) with false by lia.
     replace (v <? 32768) with false by lia. replace (v <? 8388608) with true by lia.
     repeat split; unf; try lia. change (N.to_nat 3) with 3%nat.
@@ -109,7 +109,7 @@ Proof.
   destruct rest as [|x4 rest].
   { cbn in *. unfold wf_byte in *. unfold be_value, len_for_value. cbn [be_acc].
     assert (x0 <= 3 /\ x1 < 256 /\ x2 < 256 /\ x3 < 256 /\ (x0 <> 0 \/ 128 <= x1)) as (A & B & C & D & F) by lia.
-    set (v := (((0 * 256 + x0) * 256 + x1) * 256 + x2) * 256 + x3).
+    set (v := 256 * (256 * (256 * (256 * 0 + x0) + x1) + x2) + x3).
     replace (v =? 0) with false by lia. replace (v <? 128) with false by lia.
     replace (v <? 32768) with false by lia. replace (v <? 8388608) with false by lia.
     replace (v <? 2147483648) with true by lia.
